@@ -115,7 +115,7 @@ func genVTTDoc(r *rng, maxCues int, tricky bool) vttDoc {
 		d.regions = append(d.regions, rg)
 	}
 	css := [][]string{{"::cue(b) {", "  color: peachpuff;", "}"}, {"::cue { color: red }"}, {"::cue(c) {", "color: white;", "}", "::cue(.loud) { font-size: 2em }"},
-		{"::cue(v[voice=\"Bob\"]) { color: lime }"}}
+		{"::cue(v[voice=\"Bob\"]) { color: lime }"}, {"::cue(i) { font-size: 120%; opacity: 50% }"}, {"::cue(u) {", "  line-height: 110%;", "  content: \"%d %s %%\";", "}"}}
 	for k := r.intn(3); k > 0 && r.chance(2, 3); k-- {
 		d.styles = append(d.styles, css[r.intn(len(css))])
 	}
